@@ -572,6 +572,10 @@ class ClientSession:
             self._loop, real_timeout.total, ceil_threshold=real_timeout.ceil_threshold
         )
         handle = tm.start()
+        # Listen to the clock from the moment it runs: the trace callbacks
+        # awaited below are user code, and a deadline passing while nobody is
+        # registered with ``tm`` would be lost.
+        timer = tm.timer()
 
         if read_bufsize is None:
             read_bufsize = self._read_bufsize
@@ -600,7 +604,6 @@ class ClientSession:
         for trace in traces:
             await trace.send_request_start(method, url.update_query(params), headers)
 
-        timer = tm.timer()
         req: ClientRequest | None = None
         try:
             with timer:
